@@ -1,0 +1,25 @@
+//go:build verif
+
+package traversal
+
+// Read-only snapshot for the external verification harness (compiled only with -tags verif).
+
+type VerifSnapshot struct {
+	Outstanding int
+	Unqueried   int
+	HaveQuery   bool
+	ClosestLen  int
+	Stopping    bool
+}
+
+func (op *Operation) VerifSnapshot() VerifSnapshot {
+	op.mu.Lock()
+	defer op.mu.Unlock()
+	return VerifSnapshot{
+		Outstanding: op.outstanding,
+		Unqueried:   op.unqueried.Len(),
+		HaveQuery:   op.haveQuery(),
+		ClosestLen:  op.closest.Len(),
+		Stopping:    op.stopping.IsSet(),
+	}
+}
